@@ -178,6 +178,8 @@ class VerilogTransformer(Transformer):
                         const_count += 1
                         s = cname
                         Line(c, cnode, Node(c, s))
+                    if s not in c.forks and s in sig_decls and len(sig_decls[s].names) == 1:
+                        s = sig_decls[s].names[0]  # a 1-bit bus read by its bare name
                     if s not in c.forks:
                         if f'{s}[0]' in c.forks:  # actually a 1-bit bus?
                             s = f'{s}[0]'
